@@ -196,9 +196,12 @@ Fixpoint tlLoop (r : rep) (k : nat) (nr : Z) (d : Z) (t : Z) (cur : sentry) (acc
   end.
 
 (** relative index of the newest segment that has ended at relative time [relMS] (+ the offset
-    [atoMS], added before the single conversion to media time), and the wrap it belongs to *)
+    [atoMS], added before the single conversion to media time), and the wrap it belongs to; a
+    relative time beyond the loop duration moves on to a later wrap *)
 Definition edgeIdx (r : rep) (wraps relMS atoMS : Z) : Z * Z :=
-  let relT := Z.quot ((relMS + atoMS) * ts r) 1000 in
+  let relT0 := Z.quot ((relMS + atoMS) * ts r) 1000 in
+  let dur := repDuration r in
+  let '(wraps, relT) := if relT0 >=? dur then (wraps + relT0 / dur, relT0 mod dur) else (wraps, relT0) in
   let n := nsegs r in
   if relT <? en (segAt r 0) then (wraps - 1, n - 1)
   else
